@@ -125,6 +125,10 @@ type VC struct {
 	memo       map[string]string
 	defLine    map[string]int
 	defLineN   int
+	pathNote   string
+	order      []*ssa.BasicBlock
+	done       bool
+	retsP      *[]inlRet
 	splitOK    bool
 	pending    []branchOut
 	workDir    string
@@ -133,9 +137,10 @@ type VC struct {
 }
 
 type inlRet struct {
-	cur string
-	st  *State
-	res []TV
+	cur  string
+	st   *State
+	res  []TV
+	note string
 }
 
 type rangeInfo struct {
@@ -201,8 +206,18 @@ func (vc *VC) freshName(prefix string) string {
 func (vc *VC) define(prefix, sort, term string) string {
 	n := vc.freshName(prefix)
 	r := vc.r()
+	if sort != "Bool" && needsOpaqueName(term) {
+		// Solvers expand define-fun inside quantifier patterns; a pattern must not contain ite or logical
+		// connectives, so such terms get an opaque name plus its defining equation (a conservative extension).
+		r.body = append(r.body, fmt.Sprintf("(declare-const %s %s) (assert (= %s %s))", n, sort, n, term))
+		return n
+	}
 	r.body = append(r.body, fmt.Sprintf("(define-fun %s () %s %s)", n, sort, term))
 	return n
+}
+
+func needsOpaqueName(term string) bool {
+	return strings.Contains(term, "(ite ") || strings.Contains(term, "(and ") || strings.Contains(term, "(or ") || strings.Contains(term, "(not ") || strings.Contains(term, "(=> ")
 }
 
 func (vc *VC) declare(prefix, sort string) string {
@@ -230,6 +245,9 @@ func (vc *VC) oblige(name, kind, detail, goal string, clause *Clause) {
 	r := vc.r()
 	if vc.parent != nil {
 		detail = "in inlined " + shortKey(vc.key) + ": " + detail
+	}
+	if vc.pathNote != "" {
+		detail += " [path: " + vc.pathNote + "]"
 	}
 	o := &Obligation{Func: r.key, Name: name, Kind: kind, Detail: detail, Pos: len(r.body), Guard: vc.cur, Goal: goal, Clause: clause, Site: vc.pos()}
 	r.obls = append(r.obls, o)
@@ -832,9 +850,12 @@ func (vc *VC) Generate() (err error) {
 	vc.oblige("cover:entry", "cover", "function entry reachable under requires", "true", nil)
 	vc.r().obls[len(vc.r().obls)-1].Cover = true
 	vc.entry = vc.st.clone()
-	order := vc.rpo()
-	for _, b := range order {
+	vc.order = vc.rpo()
+	for _, b := range vc.order {
 		vc.block(b)
+		if vc.done {
+			break
+		}
 	}
 	return nil
 }
@@ -908,15 +929,62 @@ func (vc *VC) block(b *ssa.BasicBlock) {
 		}
 		vc.reach[b] = vc.cur
 	}
-	// a block that ends in a return is a tail: when an inlined call in it comes back on several paths,
-	// the rest of the block is verified once per path instead of on a merged state (smaller, simpler goals)
+	// When a call comes back on several paths (inlined returns, dispatch candidates) and no loop lies ahead,
+	// the rest of the function is verified once per path instead of on a merged state: every goal is then
+	// about one concrete path (smaller, simpler and more stable queries).
 	_, endsInReturn := b.Instrs[len(b.Instrs)-1].(*ssa.Return)
-	vc.runInstrs(b, 0, endsInReturn)
+	vc.runInstrs(b, 0, endsInReturn || len(vc.loops) == 0)
 	vc.curInstr = nil
+	if vc.done {
+		return
+	}
 	if _, ok := vc.outSt[b]; !ok {
 		vc.outSt[b] = vc.st
 		vc.outReach[b] = vc.cur
 	}
+}
+
+// cloneFrame copies the per-function translation state (values, block states) so that a continuation
+// can be translated independently; output, obligations and collected returns stay shared.
+func (vc *VC) cloneFrame() *VC {
+	c := *vc
+	c.vals = make(map[ssa.Value]string, len(vc.vals))
+	for k, v := range vc.vals {
+		c.vals[k] = v
+	}
+	c.addrs = make(map[ssa.Value]*Addr, len(vc.addrs))
+	for k, v := range vc.addrs {
+		c.addrs[k] = v
+	}
+	c.tuples = make(map[ssa.Value][]string, len(vc.tuples))
+	for k, v := range vc.tuples {
+		c.tuples[k] = v
+	}
+	c.reach = make(map[*ssa.BasicBlock]string, len(vc.reach))
+	for k, v := range vc.reach {
+		c.reach[k] = v
+	}
+	c.outSt = make(map[*ssa.BasicBlock]*State, len(vc.outSt))
+	for k, v := range vc.outSt {
+		c.outSt[k] = v
+	}
+	c.outReach = make(map[*ssa.BasicBlock]string, len(vc.outReach))
+	for k, v := range vc.outReach {
+		c.outReach[k] = v
+	}
+	c.edge = make(map[[2]int]string, len(vc.edge))
+	for k, v := range vc.edge {
+		c.edge[k] = v
+	}
+	c.rangeIt = make(map[ssa.Value]*rangeInfo, len(vc.rangeIt))
+	for k, v := range vc.rangeIt {
+		c.rangeIt[k] = v
+	}
+	c.defers = append([]*deferred(nil), vc.defers...)
+	c.st = vc.st.clone()
+	c.pending = nil
+	c.done = false
+	return &c
 }
 
 func (vc *VC) runInstrs(b *ssa.BasicBlock, from int, split bool) {
@@ -933,11 +1001,39 @@ func (vc *VC) runInstrs(b *ssa.BasicBlock, from int, split bool) {
 			vc.splitOK = false
 			if brs := vc.pending; len(brs) > 1 {
 				vc.pending = nil
+				note0 := vc.pathNote
 				for _, br := range brs {
-					vc.cur, vc.st = br.cur, br.st
-					vc.assignCallResults(call, br.res)
-					vc.runInstrs(b, i+1, split)
+					cl := vc.cloneFrame()
+					cl.cur, cl.st = br.cur, br.st
+					if br.note != "" {
+						cl.pathNote = strings.TrimPrefix(note0+"; "+br.note, "; ")
+					}
+					cl.assignCallResults(call, br.res)
+					cl.runInstrs(b, i+1, split)
+					cl.curInstr = nil
+					if cl.done {
+						continue
+					}
+					if _, ok := cl.outSt[b]; !ok {
+						cl.outSt[b] = cl.st
+						cl.outReach[b] = cl.cur
+					}
+					// the blocks after b, in translation order
+					after := false
+					for _, nb := range vc.order {
+						if nb == b {
+							after = true
+							continue
+						}
+						if after {
+							cl.block(nb)
+							if cl.done {
+								break
+							}
+						}
+					}
 				}
+				vc.done = true
 				return
 			}
 			vc.pending = nil
@@ -1837,7 +1933,11 @@ func (vc *VC) ret(ins *ssa.Return) {
 	}
 	if vc.parent != nil {
 		// inlined callee: record the return point, the caller merges them
-		vc.rets = append(vc.rets, inlRet{cur: vc.cur, st: vc.st, res: res})
+		note := fmt.Sprintf("%s returns at %s", shortKey(vc.key), vc.P.Fset.Position(ins.Pos()))
+		if vc.pathNote != "" {
+			note = vc.pathNote + "; " + note
+		}
+		*vc.retsP = append(*vc.retsP, inlRet{cur: vc.cur, st: vc.st, res: res, note: note})
 		vc.outSt[b] = vc.st
 		vc.outReach[b] = "false"
 		return
